@@ -69,6 +69,8 @@ pub struct Party {
     pub status: Status,
     pub wake: Arc<Flag>,
     pub last_site: u16,
+    /// Last non-primitive site (function-level context) this party passed.
+    pub ctx_site: u16,
     /// PCT priority (higher runs first).
     pub prio: i64,
 }
@@ -171,6 +173,8 @@ pub struct Ctx {
     pub switches: u64,
     pub max_steps: u64,
     pub budget_exhausted: bool,
+    /// Set by the first anomaly: the run stops at the next scheduling point.
+    pub halt: bool,
     pub slots: SlotMap,
     pub hb: Option<Hb>,
     pub trans_mode: TransMode,
@@ -244,6 +248,7 @@ impl Ctx {
             switches: 0,
             max_steps: 20_000,
             budget_exhausted: false,
+            halt: false,
             slots,
             hb: None,
             trans_mode: TransMode::Off,
@@ -275,6 +280,7 @@ impl Ctx {
             status: Status::Runnable,
             wake: Flag::new(),
             last_site: 0,
+            ctx_site: 0,
             prio: 0,
         });
         self.pending_cas.push(None);
@@ -286,6 +292,7 @@ impl Ctx {
     }
 
     pub fn anomaly(&mut self, clause: &'static str, detail: String, sites: Vec<u16>) {
+        self.halt = true;
         if self.anomalies.len() < 16 {
             self.anomalies.push(Anomaly {
                 clause,
@@ -456,6 +463,7 @@ impl Ctx {
         match e {
             Event::Yield { site, frame } => {
                 let slot = self.slot_from_frame(frame);
+                self.parties[me].ctx_site = site;
                 match site {
                     verif::site::SEND_BEFORE_CLOSURE => self.tx_in_slot = slot,
                     verif::site::SEND_AFTER_CLOSURE => {}
@@ -505,8 +513,10 @@ impl Ctx {
                         self.pending_cas[me] = None;
                         if let Some(hb) = self.hb.as_mut() {
                             if me < hb.party_vc.len() {
-                                // Failure ordering is Relaxed: a relaxed load.
-                                hb.atomic(me, slot, Loc::Status, MemOrder::Relaxed, Kind::Load);
+                                // The declared failure ordering is Relaxed. The properties speak about
+                                // instants ("inside the buffer at once"), not about the language memory
+                                // model, so observing a state counts as having seen what led to it.
+                                hb.atomic(me, slot, Loc::Status, MemOrder::Acquire, Kind::Load);
                             }
                         }
                     }
@@ -526,15 +536,17 @@ impl Ctx {
                         if from == 3 && to == 2 && self.tx_in_slot == Some(s) {
                             self.tx_in_slot = None;
                         }
+                        let caller = self.parties[me].ctx_site;
                         let legal = match self.trans_mode {
                             TransMode::Off => true,
-                            TransMode::Documented => hb::documented_transition(from, to),
+                            TransMode::Documented => hb::documented_transition(from, to) && hb::actor_ok(from, to, caller),
                             TransMode::WithDeadlines => {
-                                hb::documented_transition(from, to) || hb::deadline_transition(from, to)
+                                (hb::documented_transition(from, to) && hb::actor_ok(from, to, caller))
+                                    || hb::deadline_transition(from, to, caller)
                             }
                         };
                         if !legal {
-                            let caller = self.parties[me].last_site;
+                            let caller = self.parties[me].ctx_site;
                             self.anomaly(
                                 "lifecycle-order",
                                 format!(
@@ -546,7 +558,7 @@ impl Ctx {
                                     self.parties[me].name,
                                     verif::site::name(caller)
                                 ),
-                                vec![site, caller],
+                                vec![from as u16, to as u16, caller],
                             );
                         }
                         // Abstract state coverage: slot-state vector.
@@ -628,14 +640,22 @@ pub fn hook(e: Event) {
             if let Some(n) = n {
                 c.cur = n;
             }
-            n.is_some() || c.budget_exhausted
+            n.is_some() || c.budget_exhausted || c.halt
         })
         .unwrap_or(false);
         if next {
             fiber::suspend();
         }
     }
-    let _ = try_with(|c| c.apply(me, e));
+    let halted = try_with(|c| {
+        c.apply(me, e);
+        c.halt
+    })
+    .unwrap_or(false);
+    if halted && !std::thread::panicking() {
+        // The first anomaly ends the run: park this fibre for good.
+        fiber::suspend();
+    }
 }
 
 /// Scheduling point requested by harness code running inside a fibre (site 0).
@@ -646,7 +666,7 @@ pub fn yield_now() {
         if let Some(n) = n {
             c.cur = n;
         }
-        n.is_some() || c.budget_exhausted
+        n.is_some() || c.budget_exhausted || c.halt
     })
     .unwrap_or(false);
     if next {
@@ -683,6 +703,8 @@ pub enum RunEnd {
     Budget,
     /// A party panicked.
     Panicked,
+    /// Stopped at the first anomaly.
+    Anomaly,
 }
 
 /// Drive the fibres until the run ends. `idle` is called when nobody is runnable; it may make
@@ -691,6 +713,9 @@ pub enum RunEnd {
 pub fn run(fibres: &mut [Fibre], mut idle: impl FnMut() -> bool) -> (RunEnd, Option<String>) {
     loop {
         let next = with(|c| {
+            if c.halt {
+                return Err(RunEnd::Anomaly);
+            }
             if c.budget_exhausted {
                 return Err(RunEnd::Budget);
             }
